@@ -10,7 +10,8 @@ LEVEL = 'exploration'
 SHARDS = {'quick': 4, 'thorough': 16}
 RULE = (
     'Function level: collections of (t, H) series with 1-4 level-disjoint groups of distinct sizes (monotone and '
-    'non-monotone, time origins 0 / 1e6 / 1.6e9) handed to the real get_series_time_offsets, which is then re-invoked on '
+    'non-monotone, time origins 0 / 1e6 / 1.6e9; chains in which one interval creeps up before receding so that a single level -- '
+    'half of the time level 0 -- bridges two groups built separately; groups joined only at level 0 by the interval with the lowest initial level) handed to the real get_series_time_offsets, which is then re-invoked on '
     '3 permutations of the list and on copies whose series are each shifted along their own axis (integers and '
     'non-dyadic reals); raw head mappings handed to the real find_offsets and re-invoked with relabelled series ids '
     '(another series becomes the internal zero).  Oracle: own union-find over "share a grid level" names the main '
@@ -29,6 +30,8 @@ REQUIRED = {
         'collections-compared-under-permutation': 100,
         'collections-compared-under-axis-shift': 100,
         'collections-with-2+-components': 40,
+        'collections-with-a-bridging-level': 20,
+        'collections-joined-only-at-level-zero': 20,
         'collections-with-adjacent-components (levels form one gap-free run)': 10,
         'main-body-identified': 100,
         'head-mappings-compared-under-relabelling': 100,
@@ -81,6 +84,68 @@ def gen_collection(rng):
             k = (min(lv_placed) - 1) - max(lv_new)
             placed.extend((t, H + k * step) for t, H in groups[c])
         series = placed
+    rng.shuffle(series)
+    return step, series
+
+
+def gen_bridge(rng):
+    """A chain A-C-B-D of intervals in which B first creeps UP through levels it
+    shares only with D and then falls to the single level it shares with C:
+    when the groups {A, C} and {B, D} have been built separately, one level
+    bridges them.  Half of the time that bridging level is level 0."""
+    import numpy as np
+
+    step = rng.choice([1.0, 0.5, 2.5, 0.1, 0.3])
+    k0 = -9 if rng.random() < 0.5 else rng.randint(-40, 40)   # level 9 of the template -> level 9 + k0
+
+    def ramp(a, b, d):
+        n = int(round((b - a) / d))
+        return [a + i * d for i in range(n + 1)]
+
+    d = rng.choice([0.4, 0.2, 0.8])
+    profiles = {
+        'A': ramp(5.5, 1.5, -d),
+        'B': ramp(9.5, 12.5, 0.6) + ramp(12.5, 8.3, -0.6)[1:],
+        'C': ramp(9.7, 3.3, -d),
+        'D': ramp(12.7, 9.5, -d),
+    }
+    # optional extra members hanging on either end
+    if rng.random() < 0.5:
+        profiles['E'] = ramp(2.6, -1.4, -d)
+    if rng.random() < 0.5:
+        profiles['F'] = ramp(14.6, 11.6, -d)
+    series = []
+    for name, prof in profiles.items():
+        H = (np.array(prof) + k0) * step
+        dt = rng.choice([1800.0, 3600.0, 1200.0])
+        t0 = rng.choice([0.0, 1.6e9, rng.uniform(0, 1e6)])
+        series.append((t0 + np.arange(len(H)) * dt, H))
+    rng.shuffle(series)
+    return step, series
+
+
+def gen_zero_link(rng):
+    """Two groups of intervals joined only at grid level 0: the interval with
+    the lowest initial level starts just above level 0 and falls below it; the
+    others come down from above and stop between levels 0 and -1"""
+    import numpy as np
+
+    step = rng.choice([1.0, 0.5, 2.5, 2.0, 0.25])
+    series = []
+
+    def falling(a, b, n=None):
+        n = n or rng.randint(4, 12)
+        H = np.linspace(a, b, n) * step
+        dt = rng.choice([1800.0, 3600.0, 1200.0])
+        t0 = rng.choice([0.0, 1.6e9, rng.uniform(0, 1e6)])
+        return (t0 + np.arange(n) * dt, H)
+
+    series.append(falling(rng.uniform(0.2, 0.8), -rng.uniform(3.5, 7.5)))          # crosses 0, -1, ...
+    top = rng.uniform(5.5, 12.5)
+    series.append(falling(top, -rng.uniform(0.2, 0.8)))                              # crosses ..., 1, 0
+    for _ in range(rng.randint(0, 3)):                                               # more members above level 0
+        a = rng.uniform(2.5, top + 3)
+        series.append(falling(a, a - rng.uniform(1.5, 2.4) if a > 3 else 0.6))
     rng.shuffle(series)
     return step, series
 
@@ -259,8 +324,15 @@ def nontrivial(kind, stats):
 def run(ctx):
     s = SIZES[ctx.tier]
     rng = ctx.rng('collections')
-    for _ in range(ctx.share(s['gi'])):
-        step, series = gen_collection(rng)
+    for i in range(ctx.share(s['gi'])):
+        if i % 6 == 5:
+            step, series = gen_bridge(rng)
+            ctx.rec.hit('collections-with-a-bridging-level')
+        elif i % 6 == 2:
+            step, series = gen_zero_link(rng)
+            ctx.rec.hit('collections-joined-only-at-level-zero')
+        else:
+            step, series = gen_collection(rng)
         check_collection(ctx, rng, step, series)
     rng = ctx.rng('relabel')
     for _ in range(ctx.share(s['hm'])):
